@@ -4011,8 +4011,77 @@ func updateFromStored(w *load.World, c *core.Collector) {
 				}
 			}
 		}
+		// a helper of the package that reads and decodes the record under a key it is given stands for
+		// the Get and the Unmarshal: its first result is the stored record, decoded
+		helperGets := map[*ssa.Call]ssa.Value{} // call -> the key argument
+		for _, b := range f.Blocks {
+			for _, in := range b.Instrs {
+				call, ok := in.(*ssa.Call)
+				if !ok {
+					continue
+				}
+				h := call.Call.StaticCallee()
+				if h == nil || !ssax.InModule(h) || len(h.Blocks) == 0 || load.PkgPath(h) != load.PkgPath(f) {
+					continue
+				}
+				if ki := decodingReader(h, isBucketCall); ki >= 0 && ki < len(call.Call.Args) {
+					helperGets[call] = call.Call.Args[ki]
+				}
+			}
+		}
 		for _, put := range puts {
 			kp, _ := ssax.Path(put.Call.Args[0])
+			var hget *ssa.Call
+			for hc, hk := range helperGets {
+				hp, _ := ssax.Path(hk)
+				if hk == put.Call.Args[0] || (hp != "" && hp == kp) || sameConcat(hk, put.Call.Args[0]) {
+					hget = hc
+				}
+			}
+			if hget != nil {
+				n++
+				key := "update-from-stored:" + load.FnKey(f)
+				okFlow := false
+				val := put.Call.Args[1]
+				if ex, ok := val.(*ssa.Extract); ok {
+					val = ex.Tuple
+				}
+				if mcall, ok := val.(*ssa.Call); ok && mcall.Call.StaticCallee() != nil && strings.Contains(mcall.Call.StaticCallee().Name(), "Marshal") && len(mcall.Call.Args) > 0 {
+					src := mcall.Call.Args[0]
+					for i := 0; i < 3; i++ {
+						switch x := src.(type) {
+						case *ssa.MakeInterface:
+							src = x.X
+						case *ssa.UnOp:
+							src = x.X
+						}
+					}
+					fromHelper := func(v ssa.Value) bool {
+						ex, ok := v.(*ssa.Extract)
+						return ok && ex.Index == 0 && ex.Tuple == ssa.Value(hget)
+					}
+					if cell, ok := src.(*ssa.Alloc); ok {
+						nStores, good := 0, true
+						for _, r := range *cell.Referrers() {
+							if st, ok := r.(*ssa.Store); ok && st.Addr == ssa.Value(cell) {
+								nStores++
+								if !fromHelper(st.Val) {
+									good = false
+								}
+							}
+						}
+						okFlow = nStores > 0 && good
+					} else if fromHelper(src) {
+						okFlow = true
+					}
+				}
+				if okFlow {
+					c.Add("TXRMW", key, core.OK, w.At(put), "", props...)
+				} else {
+					c.Add("TXRMW", key, core.Violation, w.At(put), "a record that exists is replaced by a value that is not the stored record decoded and changed (the caller's copy, or a fresh value): what other requests added to the stored record since the caller read it is lost — shard ids created by a concurrent or an earlier create in the same insert vanish from the collection", props...)
+				}
+				continue
+			}
 			var get *ssa.Call
 			for _, g := range gets {
 				gp, _ := ssax.Path(g.Call.Args[0])
@@ -4120,4 +4189,62 @@ func sameConcat(a, b ssa.Value) bool {
 		}
 	}
 	return true
+}
+
+// decodingReader: h reads the record under one of its parameters with the bucket's Get, decodes
+// it into a cell and returns that cell as its first result on every successful return: the index
+// of the key parameter, or -1.
+func decodingReader(h *ssa.Function, isBucketCall func(*ssa.Call, string) bool) int {
+	var get *ssa.Call
+	for _, b := range h.Blocks {
+		for _, in := range b.Instrs {
+			if call, ok := in.(*ssa.Call); ok && isBucketCall(call, "Get") && len(call.Call.Args) == 1 {
+				get = call
+			}
+		}
+	}
+	if get == nil {
+		return -1
+	}
+	ki := -1
+	for i, p := range h.Params {
+		if get.Call.Args[0] == ssa.Value(p) {
+			ki = i
+		}
+	}
+	if ki < 0 {
+		return -1
+	}
+	// the cell decoded from the Get
+	var cell *ssa.Alloc
+	for _, b := range h.Blocks {
+		for _, in := range b.Instrs {
+			uc, ok := in.(*ssa.Call)
+			if !ok || uc.Call.StaticCallee() == nil || !strings.Contains(uc.Call.StaticCallee().Name(), "Unmarshal") || len(uc.Call.Args) < 2 || uc.Call.Args[0] != ssa.Value(get) {
+				continue
+			}
+			dst := uc.Call.Args[1]
+			if mi, ok := dst.(*ssa.MakeInterface); ok {
+				dst = mi.X
+			}
+			cell, _ = dst.(*ssa.Alloc)
+		}
+	}
+	if cell == nil {
+		return -1
+	}
+	for _, b := range h.Blocks {
+		ret, ok := b.Instrs[len(b.Instrs)-1].(*ssa.Return)
+		if !ok || len(ret.Results) < 2 {
+			continue
+		}
+		if nonNilError(ret.Results[len(ret.Results)-1], b) {
+			continue
+		}
+		ld, ok := ret.Results[0].(*ssa.UnOp)
+		if !ok || ld.X != ssa.Value(cell) {
+			return -1
+		}
+	}
+	return ki
 }
